@@ -7,19 +7,22 @@ from hypothesis import strategies as st
 from . import gen, refmodel, reqgen
 from .core import Info, Skip
 
-MODES = ["funcs", "funcs", "custom", "instance"]
+MODES = ["funcs", "funcs", "funcs", "custom", "instance", "instance-flex"]
 
 
 @st.composite
 def grammar_cases(draw, methods=None, modes=None, max_batch=6):
+    exc = draw(st.sampled_from([0, 0, 0, 0, 1, 2, 3, 4, 5, 6, 7, 8, 9, 10]))
+    if exc and methods is None:
+        # what the failing callable raises only matters when it is called
+        methods = st.sampled_from(["boom", "boom", "boom", "echo", "ident", "nope"])
     return {
+        "exc": exc,
         "body": draw(reqgen.bodies(methods, max_batch)),
         "version": draw(st.sampled_from([1.0, 2.0])),
         "jsonclass": draw(st.booleans()),
         "mode": draw(st.sampled_from(modes or MODES)),
         "ascii": draw(st.booleans()),
-        # what the failing callable raises (index into refmodel.exception_factories())
-        "exc": draw(st.sampled_from([0, 0, 0, 1, 2, 3, 4, 5, 6, 7, 8])),
         # one case in three runs on a server whose Config carries a handler table
         "handlers": draw(st.one_of(st.none(), st.none(), st.sampled_from(sorted(refmodel.HANDLER_TABLES)))),
     }
